@@ -15,7 +15,7 @@ from . import net
 PROP = "C20"
 LEVEL = "proof"
 ASSUMPTIONS = [
-    "the model describes the partition of lines into sections; the switch lists of the sections are checked by the oracle (own lines taken out / restored), not modelled in this file",
+    "Model/Sections.lean describes the partition of lines into sections; the switch lists of the real sections enter the switching model (Model/Control.lean) as part of the extracted configuration, whose Section.disconnect / put-back functions are compared state by state with the real objects and about which the restore theorem is proved (hypotheses wfB, wfB2 evaluated on every extracted configuration)",
 ]
 F = Fraction
 
@@ -101,9 +101,20 @@ def handler(case):
         return ({l.name: l.connected for l in ps.lines}, {s.name: s.is_open for s in ps.disconnectors + ps.circuitbreakers})
     s0 = state()
     automatic = type(ps.controller).__name__ == "MainController"
+    # the same on the switching model (C20.section_out_takes_lines_out / disconnect_reconnect_restores are about these functions):
+    # full state after Section.disconnect and after putting the section back, manual control
+    v = None
+    if not automatic:
+        from . import ctl
+        v = ctl.View(ps)
+        ops.append(v.cfg_op(F(case["spec"]["ctrl"]["T"])))
+        impl.append(ctl.show(v.snapshot()))
     for n in ps.child_network_list:
         for s in getattr(n, "sections", None) or []:
             s.disconnect()
+            if v is not None and n.name in v.ni:
+                ops.append(f"ctl secout {v.sec_index(s)}")
+                impl.append(ctl.show(v.snapshot()))
             out = [l.name for l in s.lines if l.connected]
             if out:
                 viols.append(("sections.disconnect", f"{n.name}: section {[l.name for l in s.lines]} taken out of service but {out} still in service"))
@@ -120,6 +131,9 @@ def handler(case):
                 s.connect(_T(1), ctrl)
             else:
                 s.connect_manually()
+            if v is not None and n.name in v.ni:
+                ops.append(f"ctl putback {v.ni[n.name]} {v.sec_index(s)}")
+                impl.append(ctl.show(v.snapshot()))
             s1 = state()
             if s1 != s0:
                 diff = [k for k in s0[0] if s0[0][k] != s1[0][k]] + [k for k in s0[1] if s0[1][k] != s1[1][k]]
@@ -131,7 +145,17 @@ def handler(case):
 def compare(case, m, i):
     def canon_model(s):
         return canon_groups(s.split(",")) if s != "-" else ""
-    return [canon_model(x) for x in m] == i
+    from . import ctl
+    if len(m) != len(i):
+        return False
+    for x, y in zip(m, i):
+        if y.startswith("F="):
+            # switching model: full state, and the hypotheses wfB / wfB2 of the theorems hold for the extracted configuration
+            if ctl.strip_ok(x) != y or ctl.model_flags(x)[3] != "1" or ctl.model_flags(x)[5] != "1":
+                return False
+        elif canon_model(x) != y:
+            return False
+    return True
 
 
 def all_trees(n):
